@@ -285,7 +285,26 @@ class Folder:
             except Exception as e:  # noqa
                 raise Unfoldable(str(e))
         if isinstance(expr, ast.JoinedStr):
-            raise Unfoldable("f-string")
+            parts = []
+            for v in expr.values:
+                if isinstance(v, ast.Constant):
+                    parts.append(str(v.value))
+                    continue
+                val = self.fold(v.value, scope)
+                if not isinstance(val, (int, str, float, bytes, bool, type(None))):
+                    raise Unfoldable("f-string value")
+                if v.conversion == 114:
+                    val = repr(val)
+                elif v.conversion == 115:
+                    val = str(val)
+                elif v.conversion == 97:
+                    val = ascii(val)
+                spec = self.fold(v.format_spec, scope) if v.format_spec is not None else ""
+                try:
+                    parts.append(format(val, spec))
+                except Exception as e:  # noqa
+                    raise Unfoldable(str(e))
+            return "".join(parts)
         raise Unfoldable(type(expr).__name__)
 
     def _fold_call(self, expr: ast.Call, scope: Scope) -> Any:
